@@ -279,3 +279,90 @@ def tx_fields(ex, nin, nout, wit):
               "txid_is_hash_of_stripped": tx.id == _hashes.hash256(stripped)[::-1],
               "wtxid_is_hash_of_full": tx.hash == _hashes.hash256(full)[::-1]}
     return claims
+
+
+# ------------------------------------------------------------------ PSBT input / output maps: binary and dict round trips, field by field
+from btclib.psbt.psbt_in import PsbtIn
+from btclib.psbt.psbt_out import PsbtOut
+from btclib.bip32.key_origin import BIP32KeyOrigin
+
+_XONLY = bytes.fromhex("79be667ef9dcbbac55a06295ce870b07029bfcdb2dce28d959f2815b16f81798")
+_PUB = b"\x02" + _XONLY
+
+
+def _psbt_field(ex, cls, field):
+    """(constructor keyword, value) with a few symbolic bytes / integers inside a structurally valid value."""
+    s = lambda name, n=1: ex.bytes(name, n)
+    origin = lambda tag: BIP32KeyOrigin(s(tag + "fp", 1) + b"\x02\x03\x04", [0x8000002C, 7], check_validity=False)   # path concrete: its dict form is decimal text
+    if field == "hd_key_paths":
+        return {_PUB: origin("o")}
+    if field == "taproot_hd_key_paths":
+        return {_XONLY: ([s("leaf") + b"\x07" * 31], origin("t"))}
+    if field == "taproot_hd_key_paths_no_leaf":
+        return {_XONLY: ([], origin("t"))}
+    if field in ("redeem_script", "witness_script", "final_script_sig"):
+        return s("scr") + b"\x51"
+    if field == "taproot_internal_key":
+        return s("ik") + _XONLY[1:]
+    if field == "taproot_merkle_root":
+        return s("mr") + b"\x09" * 31
+    if field == "unknown":
+        return {b"\xfc" + s("uk"): s("uv", 2)}
+    if field in ("ripemd160_preimages", "hash160_preimages"):
+        return {s("hk") + b"\x05" * 19: s("pv", 2)}
+    if field in ("sha256_preimages", "hash256_preimages"):
+        return {s("hk") + b"\x05" * 31: s("pv", 2)}
+    if field == "sig_hash_type":
+        return ex.int("sht", 0, 0xFFFFFFFF)
+    if field in ("sequence", "output_index"):
+        return ex.int("u32", 0, 0xFFFFFFFF)
+    if field == "required_time_lock_time":
+        return ex.int("tl", 500000000, 0xFFFFFFFF)
+    if field == "required_height_lock_time":
+        return ex.int("hl", 1, 499999999)
+    if field == "previous_tx_id":
+        return s("ptx") + b"\x0a" * 31
+    if field == "amount":
+        return ex.int("amt", 0, 2_100_000_000_000_000)
+    if field == "script_pub_key":
+        return s("spk") + b"\x51"
+    if field == "taproot_tree":
+        return [(ex.int("depth", 0, 128), 0xC0, s("ts") + b"\x51")]
+    if field == "taproot_leaf_scripts":
+        return {b"\xc0" + _XONLY + s("cb") + b"\x01" * 31: (s("ls") + b"\x51", 0xC0)}
+    if field == "taproot_script_spend_signatures":
+        return {_XONLY + s("lh") + b"\x02" * 31: s("sg") + b"\x03" * 63}
+    if field == "taproot_key_spend_signature":
+        return s("sg") + b"\x03" * 63
+    if field == "final_script_witness":
+        return Witness([s("w") + b"\x01"], check_validity=False)
+    if field == "witness_utxo":
+        return TxOut(123456789, s("spk") + b"\x51", check_validity=False)    # the dict form renders the value through decimal.Decimal (C code): concrete here
+    raise ValueError(field)
+
+
+_IN_FIELDS = ["hd_key_paths", "taproot_hd_key_paths", "taproot_hd_key_paths_no_leaf", "redeem_script", "witness_script", "final_script_sig", "taproot_internal_key", "taproot_merkle_root",
+              "unknown", "ripemd160_preimages", "sha256_preimages", "hash160_preimages", "hash256_preimages", "sig_hash_type", "sequence", "output_index",
+              "required_time_lock_time", "required_height_lock_time", "previous_tx_id", "taproot_leaf_scripts", "taproot_script_spend_signatures",
+              "taproot_key_spend_signature", "final_script_witness", "witness_utxo"]
+_V2_FIELDS = {"previous_tx_id", "output_index", "sequence", "required_time_lock_time", "required_height_lock_time", "amount", "script_pub_key"}
+_OUT_FIELDS = ["hd_key_paths", "taproot_hd_key_paths", "taproot_hd_key_paths_no_leaf", "redeem_script", "witness_script", "taproot_internal_key", "unknown", "amount", "script_pub_key", "taproot_tree"]
+
+
+@ob("C05", "psbt_map_fields_roundtrip", quick=[dict(cls=c, field=f) for c, fs in (("in", _IN_FIELDS), ("out", _OUT_FIELDS)) for f in fs],
+    bound="a PSBT input or output map holding one field (each field of the class in turn) whose value is structurally valid with its leading bytes / integers symbolic over "
+          "their whole range: parse(serialize()) and from_dict(to_dict()) rebuild an equal object and re-serialize to the same bytes",
+    functions=["btclib.psbt.psbt_in.PsbtIn.from_dict", "btclib.psbt.psbt_out.PsbtOut.from_dict", "btclib.psbt.psbt_in.PsbtIn.parse", "btclib.psbt.psbt_out.PsbtOut.parse"],
+    outside=["maps holding several fields at once; json.dumps/json.loads of the dict (C code); check_validity=True constraints on the symbolic bytes"], min_ok=1, timeout=300)
+def psbt_map_fields(ex, cls, field):
+    C = PsbtIn if cls == "in" else PsbtOut
+    kw = field[:-8] if field.endswith("_no_leaf") else field
+    obj = C(**{kw: _psbt_field(ex, cls, field)}, check_validity=False)
+    ver = 2 if field in _V2_FIELDS else 0     # BIP370 fields are written only in a version 2 map
+    raw = obj.serialize(psbt_version=ver, check_validity=False)
+    back = C.parse(raw, psbt_version=ver, check_validity=False)
+    again = C.from_dict(obj.to_dict(check_validity=False), check_validity=False)
+    return {"parse_of_serialize_is_equal": back == obj,
+            "reserialize_identity": back.serialize(psbt_version=ver, check_validity=False) == raw,
+            "from_dict_of_to_dict_is_equal": again == obj,
+            "dict_form_serializes_the_same": again.serialize(psbt_version=ver, check_validity=False) == raw}
